@@ -28,21 +28,24 @@ theorem C05_encode_meets_spec (a : Acc) (tbl : Option Tbl) (v : Int) (bits : Lis
     (s : List Char) (c : Option (List Char)) (hb : IsBits bits) (hd : AllDistinct a tbl)
     (h : encode a tbl v bits false vtLen fuel = .ok (s, c)) :
     IsEncoding a tbl v (bitToNumberInt bits) s := by
-  sorry
+  exact (cn_isEncoding_iff a tbl hd v _ s).2
+    (cn_encodeNat_spec a tbl _ _ _ _ (cn_encode_normal_ok hb h).1)
 
 /-- the scheme determines the strand: two strands meeting the specification for the same value
 from the same vertex are equal — so the strand is *the* walk of the scheme, whatever the
 implementation. -/
 theorem C05_spec_unique (a : Acc) (tbl : Option Tbl) (v : Int) (val : Nat) (s s' : List Char)
     (hd : AllDistinct a tbl) (h : IsEncoding a tbl v val s) (h' : IsEncoding a tbl v val s') : s = s' := by
-  sorry
+  obtain ⟨w, e, t⟩ := (cn_isEncoding_iff a tbl hd v val s).1 h
+  obtain ⟨w', e', t'⟩ := (cn_isEncoding_iff a tbl hd v val s').1 h'
+  exact cn_tight_unique a tbl s v s' w t w' t' (e.trans e'.symm)
 
 /-- decoding any walk whose digit sequence has a value that fits in `L` bits returns that value
 big-endian at width `L` (and, in general, the `L`-symbol rendering of the value). -/
 theorem C05_decode_value (a : Acc) (tbl : Option Tbl) (v : Int) (s : List Char) (L : Nat)
     (hd : AllDistinct a tbl) (hw : isWalk a v s = true) :
     decode a tbl v s L false none = .ok (numberToBitInt (walkValue a tbl v s) L) := by
-  sorry
+  rw [cn_decode_normal_ok a tbl v s L none hw rfl, walkValueD_eq_walkValue a tbl hd s v hw]
 
 /-- fast mode: the bits carried by the emitted strand are the message followed by at most one
 padding zero, and the strand is a walk. -/
@@ -50,7 +53,7 @@ theorem C05_fast_meets_spec (a : Acc) (tbl : Option Tbl) (v : Int) (bits : List 
     (s : List Char) (c : Option (List Char)) (hb : IsBits bits) (hd : AllDistinct a tbl)
     (h : encode a tbl v bits true vtLen fuel = .ok (s, c)) :
     isWalk a v s = true ∧ (walkBits a tbl v s = bits ∨ walkBits a tbl v s = bits ++ [0]) := by
-  sorry
+  exact cf_C05_fast_meets_spec a tbl v bits vtLen fuel s c hb hd h
 
 /-- fast mode decoding of a walk without out-degree-3 vertices whose bits fit: the carried bits,
 zero-padded to `L`. -/
@@ -60,10 +63,11 @@ theorem C05_fast_decode_value (a : Acc) (tbl : Option Tbl) (v : Int) (s : List C
     (hL : (walkBits a tbl v s).length ≤ L) :
     decode a tbl v s L true none =
       .ok (walkBits a tbl v s ++ List.replicate (L - (walkBits a tbl v s).length) 0) := by
-  sorry
+  exact cf_C05_fast_decode_value a tbl v s L hd hw h3 hL
 
 example : IsEncoding gcBalanced2 none 1 85 "TCTCTCT".toList := by
-  sorry
+  exact C05_encode_meets_spec gcBalanced2 none 1 [0, 1, 0, 1, 0, 1, 0, 1] 0 200 _ none
+    (by unfold IsBits; decide) (fun v => distinctKeys_none _ v) (by decide +kernel)
 example : encode gcBalanced2 none 1 [0, 1, 0, 1, 0, 1, 0, 1] false 0 200 = .ok ("TCTCTCT".toList, none) := by
   decide +kernel
 
